@@ -234,6 +234,16 @@ func NewCalculator(
 		return nil, errors.New("iteration frequency must be positive and smaller than the repeat window")
 	}
 
+	if volume < 0 || math.IsNaN(volume) || math.IsInf(volume, 0) {
+		return nil, errors.New("volume must be a finite, non-negative number")
+	}
+
+	for _, weight := range weights {
+		if weight < 0 || math.IsNaN(weight) || math.IsInf(weight, 0) {
+			return nil, errors.New("weights must be finite, non-negative numbers")
+		}
+	}
+
 	multiplier := volume * float64(frequency)
 	gauss, err := gaussian.NewDistribution(float64(peak), float64(stddev))
 	if err != nil {
@@ -246,6 +256,10 @@ func NewCalculator(
 		for _, weight := range weights {
 			totalWeight += weight
 		}
+		if totalWeight <= 0 {
+			return nil, errors.New("at least one weight must be positive")
+		}
+
 		averageWeight = totalWeight / float64(len(weights))
 	}
 
